@@ -32,7 +32,8 @@ def pairing(ctx, rule):
               "the current pair comes from next(), the preceding one from peek()", detail=str(d))
     somes = [(bi, q.shape(b.expr_of_rvalue(s["rv"]) if s["k"] == "assign" else b.expr_of_call(s), roles)) for bi, si, s, it in b.locations()
              if (not it and s["k"] == "assign" and s["place"]["l"] == 0 and not s["place"]["p"]) or (it and s["k"] == "call" and s["dest"]["l"] == 0 and not s["dest"]["p"])]
-    rets = [(bi, sh) for bi, sh in somes if sh != "Option::None{}"]
+    # (the walk running out of tokens - `while let` falling through to None, or `iter.next()?` - answers nothing)
+    rets = [(bi, sh) for bi, sh in somes if sh != "Option::None{}" and not sh.startswith("FromResidual::from_residual(break(Try::branch(Iterator::next(var:Peekable<")]
     ctx.check([sh for _, sh in rets] == ["Token::get_name(cur)"], rule, fn, "returns:name-of-current", "the answer is the original name attached to the *current* token", detail=str(rets))
     pr = ctx.facts.promoted_of(GOFN, 0)
     kw = [x.str_value() for bi, si, s, it in (pr.locations() if pr else []) if not it and s["k"] == "assign" for x in pr.expr_of_rvalue(s["rv"]).walk() if isinstance(x, Const) and x.str_value() is not None]
